@@ -67,6 +67,15 @@ CHECKS = {
             "Trusted: Lean kernel, model = code (tied per operation), C10 slot model. One known finding (second Router.compile_program "
             "below v8 has slot-id ties whose numbering depends on set order; programs equal modulo slot renaming); one defect repaired.",
             "DESIGN.md Part II C11"),
+    "C07": ("proof",
+            "Lean 4 proof: indexTuple_correct / arrayElem_inrange_correct / length_correct / path_correct on a model of the index computation the emitted decoding code performs, against the ARC-4 specification (decode_encode, split_assemble); substring_choice_equiv for every opcode choice; real decode()+element-access programs executed on the AVM spec and compared with algosdk and the Lean codec",
+            "For all type shapes, values and in-range positions the modelled slice/bit positions are the ones the ARC-4 specification reads; "
+            "the model is tied to the real code by executing the real TEAL of generated (type, value, access path) programs in both storage "
+            "back-ends for versions 5..10 and comparing every logged component with algosdk, the Lean decoder and the model, including "
+            "out-of-range indices.",
+            "Trusted: Lean kernel, Arc4.lean (validated against algosdk), AVM spec, the hand-written model (tied per case). Three known "
+            "findings: out-of-range index into bool arrays, arrays of dynamic elements and zero-width elements does not fail.",
+            "DESIGN.md Part II C07"),
     "C08": ("proof",
             "Lean 4 proof: the model of the router's dispatch conditions equals a specification written from the property text for every configuration and call (induction over the method list); full call matrix executed on the real approval/clear TEAL of generated routers",
             "router_dispatch_code / router_dispatch_partial / router_dispatch_fails_iff are universal over configurations; real Router objects "
